@@ -115,6 +115,15 @@ func runC06(l *world.Lab, c caseC06, rec *kit.Recorder) error {
 		return nil
 	}
 	if !out.Success {
+		// whatever the bridge answered: the request that reached it must carry the coin left by the
+		// last action (the bridge may have refused that very coin - e.g. CCTP cannot burn the swap
+		// output - but it must have been asked about the right one)
+		for _, call := range bridgeCalls(s) {
+			if err := checkRequest(t, run, call); err != nil {
+				return fmt.Errorf("order [%s]: the request that reached the bridge (which refused it) does not carry the coin left by the last action: %w", order, err)
+			}
+			rec.Label("c06", "bridge refused, its request checked")
+		}
 		// the model accepts the list, nothing is paused: a refusal is legitimate only when one of
 		// the module's dependencies (ICS-20, bank, the swap venue, a bridge, the event manager)
 		// refused something - every such call is recorded. A refusal with no failed dependency
@@ -244,6 +253,10 @@ func genC06(t *rapid.T, l *world.Lab) caseC06 {
 		}
 	}
 	tr.Route = kit.GenRoute(t, w, running, kit.RouteOpt{EnvValid: true, InternalClasses: []string{"plain"}})
+	if running == world.SwapDenom && kit.Chance(t, "cctp-after-swap", 20) {
+		// CCTP cannot burn the swap output and will refuse; what it is ASKED to burn is recorded
+		tr.Route = kit.GenRoute(t, w, running, kit.RouteOpt{Kinds: []string{"cctp"}})
+	}
 	if tr.Route.Kind == "cctp" && amt.Cmp(big.NewInt(world.BurnLimit)) > 0 {
 		tr.Route = kit.Route{Kind: "internal", To: kit.PlainUser(t, "to")}
 	}
